@@ -262,13 +262,15 @@ func (mc *MemoryChannel) appendRdb(writer *MemoryRdbWriter, buf []byte) (int, er
 }
 
 func (mc *MemoryChannel) finishRdb(writer *MemoryRdbWriter, err error) {
-	seg := writer.currentSegment()
-	if seg != nil {
-		seg.close(err)
-	}
-
 	mc.mux.Lock()
 	defer mc.mux.Unlock()
+	// close the writer's current segment under the channel lock: appendRdb
+	// rotates (closes the segment and installs a new current one) while holding
+	// it, so a segment read before taking the lock may no longer be the current one
+	if seg := writer.currentSegment(); seg != nil {
+		seg.blob.close(err)
+		mc.signalSpaceLocked()
+	}
 	if mc.rdbWriter == writer {
 		mc.rdbWriter = nil
 	}
@@ -339,13 +341,17 @@ func (mc *MemoryChannel) appendAof(writer *MemoryAofWriter, buf []byte) (int, er
 }
 
 func (mc *MemoryChannel) finishAof(writer *MemoryAofWriter, err error) {
-	seg := writer.currentSegment()
-	if seg != nil {
-		seg.close(err)
-	}
-
 	mc.mux.Lock()
 	defer mc.mux.Unlock()
+	// close the writer's current segment under the channel lock: appendAof
+	// rotates (closes the segment and installs a new current one) while holding
+	// it; closing a segment read before taking the lock left the segment created
+	// by a concurrent rotation open for ever, and readers waited at its end
+	seg := writer.currentSegment()
+	if seg != nil {
+		seg.blob.close(err)
+		mc.signalSpaceLocked()
+	}
 	if mc.aofWriter == writer {
 		mc.aofWriter = nil
 	}
